@@ -14,11 +14,16 @@ use serde_json::json;
 use std::cell::RefCell;
 use std::collections::HashMap;
 
-pub const PLUGIN_NAMES: [&str; 5] = ["NonVerbose", "SomeIp", "CAN", "Muniic", "Rewrite"];
+pub const PLUGIN_NAMES: [&str; 6] = ["NonVerbose", "SomeIp", "CAN", "Muniic", "Rewrite", "NonVerboseRich"];
+/// harness owned FIBEX (one non-verbose frame per signal type, ECU EcuR)
+pub const RICH_FIBEX_DIR: &str = concat!(env!("CARGO_MANIFEST_DIR"), "/fibex");
+/// (frame id offset from 900000000, byte length) of the frames in fibex/nv_rich.xml
+pub const RICH_FRAMES: [(u32, usize); 21] = [(1, 1), (2, 2), (3, 4), (4, 8), (5, 1), (6, 2), (7, 4), (8, 8), (9, 4), (10, 1), (11, 2), (12, 4), (13, 8), (14, 6), (15, 5), (16, 3), (17, 7), (18, 2), (40, 70), (41, 0), (42, 0)];
 
 fn plugin_config(name: &str) -> serde_json::Value {
     match name {
         "NonVerbose" => json!({"name":"NonVerbose","fibexDir":"/repo/tests/"}),
+        "NonVerboseRich" => json!({"name":"NonVerbose","fibexDir":RICH_FIBEX_DIR}),
         "SomeIp" => json!({"name":"SomeIp","fibexDir":"/repo/tests/"}),
         "CAN" => json!({"name":"CAN","fibexDir":"/repo/tests/"}),
         "Muniic" => json!({"name":"Muniic","jsonDir":"/repo/tests/muniic"}),
@@ -38,11 +43,21 @@ pub fn gen_traffic(rng: &mut Rng, n: usize) -> Vec<(DltMessage, u8)> {
         let be = rng.chance(1, 3);
         let mut m = match class {
             0 => {
-                // non verbose, ids from the repository FIBEX files (and near misses)
-                let id: u32 = *rng.pick(&[805312382u32, 805834673, 800000000, 805312383, 1, 0]);
-                let extra = {
+                // non verbose, ids from the repository FIBEX files (and near misses) or from the harness' rich FIBEX
+                let rich = rng.chance(1, 2);
+                let (id, extra) = if rich {
+                    let (off, bl) = *rng.pick(&RICH_FRAMES);
+                    let n = match rng.below(6) {
+                        0 => bl.saturating_sub(1),
+                        1 => bl + 1,
+                        2 => rng.usize_below(80),
+                        _ => bl,
+                    };
+                    (900000000 + off, rng.bytes(n))
+                } else {
+                    let id: u32 = *rng.pick(&[805312382u32, 805834673, 800000000, 805312383, 1, 0]);
                     let n = rng.usize_below(40);
-                    rng.bytes(n)
+                    (id, rng.bytes(n))
                 };
                 let mut p = if be { id.to_be_bytes().to_vec() } else { id.to_le_bytes().to_vec() };
                 p.extend_from_slice(&extra);
@@ -53,7 +68,7 @@ pub fn gen_traffic(rng: &mut Rng, n: usize) -> Vec<(DltMessage, u8)> {
                 } else {
                     m.extended_header.as_mut().unwrap().verb_mstp_mtin = 0x40; // non verbose log info
                 }
-                m.ecu = DltChar4::from_buf(if rng.chance(3, 4) { b"Ecu1" } else { b"ECU1" });
+                m.ecu = DltChar4::from_buf(if rich { b"EcuR" } else if rng.chance(3, 4) { b"Ecu1" } else { b"ECU1" });
                 m
             }
             1 => {
